@@ -407,6 +407,7 @@ func runC09(c *Ctx) {
 		c.AtLeast("R5", "removals in cleanupTmp", n, 1)
 	}
 	tempCleanupAgeRule(c, "R5")
+	responseMatchedByOid(c, "R1")
 }
 
 var c09Canaries = []Canary{
